@@ -23,7 +23,8 @@ PALETTE = {
     "TlmA": G.entry("Tlm", sub={"X_1": SUB_RRC}, name="TlmA"),
     "TlmB": G.entry("Tlm", sub={"Zeta": SUB_TLM, "X_2": (("L",), [G.entry("R")])}, name="TlmB"),
 }
-LABEL_PATTERNS = ["none", "first:a", "dup-same-type", "dup-any", "first:R_2", "first:a b", "first:a-b", "first:x.y", "all-distinct"]
+LABEL_PATTERNS = ["none", "first:a", "dup-same-type", "dup-any", "first:R_2", "first:a b", "first:a-b", "first:x.y", "all-distinct",
+                  "first: 2", "first:1\t"]   # digits with surrounding white space: refused like plain digits, or stored without clashing
 _ST: Dict[str, Any] = {}
 
 
@@ -66,7 +67,10 @@ def apply_labels(elements: List[Any], pattern: str) -> bool:
     if pattern == "none":
         return False
     if pattern.startswith("first:"):
-        elements[0].set_label(pattern[6:])
+        try:
+            elements[0].set_label(pattern[6:])
+        except (ValueError, TypeError):
+            pass   # a refused label leaves the element unlabelled; what must not happen is a stored label that clashes with a running number
         return False
     if pattern == "all-distinct":
         for i, e in enumerate(elements):
@@ -208,9 +212,10 @@ def _check_circuit(c, expect_dup: bool, label_pattern: str, do_fit: bool, st) ->
                              f"perturbing the symbol gives {Zs[:2]}, perturbing the element gives {Ze[:2]}")
                         break
     # CircuiTikZ labels: every element of the connections appears once under the circuit's name for it
-    if simulable:
+    for running in ((False, True) if simulable else ()):
+        ids_ = run if running else ext
         try:
-            tikz = c.to_circuitikz()
+            tikz = c.to_circuitikz(running=True) if running else c.to_circuitikz()
             top = [e for e in ref if c.get_connections(recursive=False)[0].contains(e, top_level=False) and not _inside_container(e, c, st)]
         except Exception as ex:
             tikz = None
@@ -221,12 +226,12 @@ def _check_circuit(c, expect_dup: bool, label_pattern: str, do_fit: bool, st) ->
             else:
                 exp_labels = []
                 for e in top:
-                    nm = c.get_element_name(e, ext)
+                    nm = c.get_element_name(e, ids_)
                     sym = e.get_symbol()
                     rest = nm[len(sym) + 1:] if nm.startswith(sym + "_") else nm
                     exp_labels.append(f"{sym}_{{\\rm {rest}}}")
                 if sorted(labels) != sorted(exp_labels) and not any(ch in "".join(exp_labels) for ch in "#%&~^"):
-                    viol("tikz|labels-are-not-the-circuit-names", "CircuiTikZ component labels differ from the names the circuit gives its elements",
+                    viol("tikz|labels-are-not-the-circuit-names" + ("|running=True" if running else ""), "CircuiTikZ component labels differ from the names the circuit gives its elements" + (" (running=True)" if running else ""),
                          f"labels={sorted(labels)} expected={sorted(exp_labels)}")
     # table of fitted parameters
     if do_fit and simulable and not expect_dup:
